@@ -22,7 +22,7 @@ THEOREMS = [
     'C07.lower_labels_targeted_gen', 'C07.lower_labels_targeted', 'C07.for_continue_label_iff',
     'C07.no_unknown_label_error', 'C07.no_unknown_label_error_structured',
     'C07.lower_scopes_clean', 'C07.no_label_lint', 'C07.no_label_lint_structured',
-    'C07.lower_include_nonempty', 'C07.parseLines_include_nonempty',
+    'C07.lower_include_nonempty', 'C07.parseLines_include_nonempty', 'C07.schema_valid',
 ]
 ASSUMPTIONS = [
     'the theorems are about the recursive SPEC lowering Lower.lowerProgram; that parse_script computes it is (a) the correspondence '
@@ -49,8 +49,9 @@ LEVEL_TEXT = ('Theorems for ALL structured programs (any nesting depth, any numb
               'enclosing loop), every generated label is the target of a jump of its scope; hence for code without the reserved prefix whose '
               'raw jumps (if any) are resolved, findLabel succeeds for every jump of every scope, and lint (Lean model) emits none of the '
               'unknown/unused/redefined-label warnings; include lists are never empty (spec lowering and line-at-a-time mirror). Tied to '
-              'parser.py by exhaustive shape enumeration (7 construct variants x break/continue per loop level, depth <= 4, global / in a '
-              'function / several functions) and random programs: parse_script output vs spec vs mirror, plus direct oracles on the '
+              'parser.py by exhaustive shape enumeration (7 construct variants x break/continue per loop level; quick: depth <= 2, thorough: '
+              'depth <= 3 incl. the extended space and depth 4 exhaustively when the time budget allows - the evidence says which; each '
+              'global / in a function / several functions) and random programs (depth <= 6): parse_script output vs spec vs mirror, plus direct oracles on the '
               'implementation output (validate_script, per-scope label/jump census, lint_script, execution).')
 LEVEL_NOTE = ('Trusted: Lean kernel; extract.py; harness (progen renderer, scope oracles). The theorems speak about the spec lowering; '
               'mirror = spec is C01.parseLines_render (not part of C07) and is sampled here (mirror stream). WellNested is not needed by '
